@@ -31,6 +31,10 @@ run seeded/S-C11b/patch.diff C11
 run seeded/S-C13b/patch.diff C13
 run seeded/S-C15b/patch.diff C15
 run seeded/S-C16b/patch.diff C16
+run seeded/S-C11c/patch.diff C11
+run seeded/S-C04c/patch.diff C04
+run mutants/W01_write_swallows_io_error.patch C10
+run mutants/W02_write_skips_unrestricted_files.patch C10
 # the reverse direction: behaviour-preserving edits (comment lines shifting every line number, a renamed private function,
 # reordered independent statements) must leave every check silent (exit 0)
 tools/run_mutant.sh mutants/Z01_neutral_edits.patch C03 C04 C05 C06 C10 C11 C12 C13 C15 C16 2>&1 | grep -E "exit=|DOES NOT" | sed 's/$/   (expected: exit=0)/'
